@@ -285,6 +285,7 @@ callers:
 				// fails counts as a format call
 				var fmtCalls []*ssa.Call
 				viaHelper := map[*ssa.Call][]*ssa.Call{} // call of a formatting helper -> the format calls inside it
+				helperOutput := map[*ssa.Call]bool{}     // … whose first result is format's output
 				for _, b2 := range fn.Blocks {
 					for _, i2 := range b2.Instrs {
 						c2, ok := i2.(*ssa.Call)
@@ -316,6 +317,24 @@ callers:
 						if len(inner) > 0 && tight {
 							fmtCalls = append(fmtCalls, c2)
 							viaHelper[c2] = inner
+							// what the helper hands back as formatted text is format's own result (not, say, the
+							// contents of a buffer it shares between calls)
+							outOK := true
+							for _, ret := range returnsOf(h) {
+								if !isSuccessReturn(ret) || len(ret.Results) < 2 {
+									continue
+								}
+								from := false
+								for _, ifc := range inner {
+									if valueReaches(ret.Results[0], ifc, 6) {
+										from = true
+									}
+								}
+								if !from {
+									outOK = false
+								}
+							}
+							helperOutput[c2] = outOK
 						}
 					}
 				}
@@ -332,7 +351,7 @@ callers:
 				if okW {
 					derives := false
 					for _, fc := range fmtCalls {
-						if valueReaches(call.Call.Args[0], fc, 8) || dataViaArchive(call.Call.Args[0], fc, fn) {
+						if _, isHelper := viaHelper[fc]; (valueReaches(call.Call.Args[0], fc, 8) || dataViaArchive(call.Call.Args[0], fc, fn)) && (!isHelper || helperOutput[fc]) {
 							derives = true
 						}
 						// the helper formatted the members of the archive it was handed, and that archive is written
